@@ -306,6 +306,11 @@ def freq_cells(quick):
             add("1-vs-1e5-disjoint", (1, 100000, 0), b, a, q, 16, "u32", 3000, True)
             add("1-in-1e6", (0, 999999, 1), b, a, q, 16, "u16", 1200, True)
             add("1-in-1e6", (0, 999999, 1), b, a, q, 256, "u32", 400, True)
+    # sketchers built through `Default` (documented defaults b = 1.001, a = 20, q = 2^16 - 2, m = 4096; the harness
+    # skips these cells if the crate's defaults are others)
+    for name, tri in tiny + [("small-10/10/10", (10, 10, 10))]:
+        for reg in ("def16", "def32"):
+            add(name + "+default", tri, 1.001, 20.0, 65534, 4096, reg, 1500 * f, True)
     # heavily clipped tuples: the collision model alone
     for (b, a, q) in CLIPPED:
         for name, tri in tiny + [("small-10/10/10", (10, 10, 10)), ("balanced", (1000, 1000, 1000))]:
@@ -367,6 +372,9 @@ def frequency(chk, quick):
     radii = []
     drift = 0
     for c, f in zip(cells, fr):
+        if f.get("skipped"):
+            chk.notes.append("cell %s skipped: the crate's default parameters are not the documented ones" % c["shape"])
+            continue
         p = float(orc[key_of(c)])
         n, mean, var = stats.hist_moments(f["hist"], c["m"])
         eps = stats.bernstein_radius(n, var, cell_delta(len(cells)))
